@@ -409,6 +409,7 @@ fn gen(ctx: &GenCtx, i: u64, prop: &str) -> Option<Run> {
     let v = rb.verifier(vspec);
 
     // ---- the stream
+    let mut r3 = run_rng(ctx, if prop == "C15" { "C15-wrapped" } else { "C16-wrapped" }, i);
     let ntok = if slow { 2 } else { 2 + r.usize(5) };
     let mut toks: Vec<TokenDesc> = vec![];
     for _ in 0..ntok {
@@ -437,6 +438,26 @@ fn gen(ctx: &GenCtx, i: u64, prop: &str) -> Option<Run> {
                     "iss" => ClaimSpec::Iss(val.as_str().unwrap_or("i").to_string()),
                     _ => ClaimSpec::Custom { key: k, value: val },
                 });
+            }
+        }
+        // one token in six (a stream of its own): a value the verifier looks for arrives wrapped in a
+        // collection - the member is then an array / object and equals no scalar; a validator must be handed
+        // that very collection, once
+        if r3.chance(1, 6) && !claims.is_empty() {
+            let ix = r3.usize(claims.len());
+            let k = claims[ix].key().to_string();
+            let v = claims[ix].value();
+            if !k.is_empty() && k != "exp" && k != "nbf" && k != "iat" {
+                let other = json!("attackers");
+                let wrapped = match r3.below(6) {
+                    0 => json!([v]),
+                    1 => json!([other, v]),
+                    2 => json!([v, other]),
+                    3 => json!([other, v, "ops"]),
+                    4 => json!({ "0": v }),
+                    _ => json!([[v]]),
+                };
+                claims[ix] = ClaimSpec::Custom { key: k, value: wrapped };
             }
         }
         let needs_core = claims.iter().any(|c| matches!(c, ClaimSpec::Custom { key, .. } if RESERVED.contains(&key.as_str())));
